@@ -219,7 +219,7 @@ def judge(path):
 def run(tier, seed, replay):
     rep = vf.Report("C15", tier, seed)
     L = 4 if tier == "thorough" else 3
-    rep.rule = ("all operation sequences up to length %d over a 39-operation alphabet (set INT/STR/BOOL/JSON with and without replace on "
+    rep.rule = ("all operation sequences up to length %d over a 42-operation alphabet (set INT/STR/BOOL/JSON with and without replace on "
                 "colliding names, whole-object merges, malformed/duplicate/scalar JSON, empty and NULL names, typed gets, deletes) on "
                 "builder headers/claims and on the jwt_t inside builder and checker callbacks, then random sequences to length 40 with "
                 "boundary values, then a size sweep (a string member of N-18..N+2 characters for N in 16..65536, so that the JSON text of the object, "
